@@ -25,12 +25,12 @@ theorem raise_skips_rest (evalOne : Stmt → M ν Addr) (last : Option Addr) (st
 theorem throw_raises (n ln : Nat) (cid : Ident) (s s1 : VM ν) (cv ex : Addr) (nm : String) (ct : Ctor)
     (ps : List (String × Addr)) (ms : List (String × Addr)) (fr : Frame) (rest : List Frame) (cname : String)
     (hs : s.stack = fr :: rest)
-    (hname : matchIDName (ν := ν) cid.lit { s with stack := { fr with line := ln } :: rest } =
-      (.ok cname, { s with stack := { fr with line := ln } :: rest }))
-    (hfind : findElement cname { s with stack := { fr with line := ln } :: rest } =
-      (.ok cv, { s with stack := { fr with line := ln } :: rest }))
+    (hname : matchIDName (ν := ν) cid.lit { s with stack := { fr with line := ln, started := true } :: rest } =
+      (.ok cname, { s with stack := { fr with line := ln, started := true } :: rest }))
+    (hfind : findElement cname { s with stack := { fr with line := ln, started := true } :: rest } =
+      (.ok cv, { s with stack := { fr with line := ln, started := true } :: rest }))
     (hcell : s.heap[cv]? = some (.cls nm ct ps ms))
-    (hcons : construct n cv [] { s with stack := { fr with line := ln } :: rest } = (.ok ex, s1)) :
+    (hcons : construct n cv [] { s with stack := { fr with line := ln, started := true } :: rest } = (.ok ex, s1)) :
     evalStmt (n+1) (.throw ln (some cid) []) s = (.err (.sigExc ex), s1) := by
   simp only [evalStmt, Stmt.line]
   simp [bind, setTopFrame, modifyVM, hs, matchIDNameOpt, hname, hfind, getCell, hcell, hcons, throwE, pure]
